@@ -10,6 +10,7 @@ from __future__ import annotations
 
 import ast
 import io
+import re
 import itertools
 import tokenize
 import warnings
@@ -210,6 +211,7 @@ def check(chk, repo, tier):
                sample={"state": rec.state.describe(),
                        "shape": rec.shape.label, "hole": rec.hole,
                        "probe": rec.probe})
+    indent_uniformity(chk, gen, ex, TF)
     # parameter value language of named functions
     function_parameters(chk, repo, gen, TF)
     # coverage of the generator: every return of the transpile functions must
@@ -327,9 +329,30 @@ def string_transducer(chk, gen, TF, tier):
             "{", "0"]
     maxlen = 4 if tier == "thorough" else 3
     vals = string_values(reps if tier == "thorough" else reps[:9], maxlen)
+    # the dictionary decoder distinguishes compression characters by their
+    # position (short-dictionary range or not, pair value in range or not):
+    # every character alone / before a plain one, and all strings <= 3 over
+    # the boundary positions
+    try:
+        n_small = len(gen.it.module("vyxal.dictionary").get(
+            "small_dictionary"))
+    except Exception:  # noqa: BLE001
+        n_small = len(comp) // 2
+    edge = sorted({comp[0], comp[min(n_small, len(comp)) - 1],
+                   comp[min(n_small, len(comp) - 1)], comp[-1]})
+    extra = set()
+    for c in comp:
+        extra |= {c, c + "a", c + " ", "\\" + c, c + "\\a"}
+    alpha = edge + ["a", " ", "\\"]
+    for k in (1, 2, 3):
+        for t in itertools.product(alpha, repeat=k):
+            extra.add("".join(t))
+    extra = sorted(x for x in extra
+                   if not (len(x) - len(x.rstrip("\\"))) % 2)
     n = 0
     for dc in (False, True):
-        for s in vals:
+        for s in (vals + [x for x in extra if x not in set(vals)]
+                  if dc else vals):
             n += 1
             cons = ("token/STRING/dict_compress" if dc
                     else "token/STRING/raw")
@@ -490,6 +513,75 @@ def generator_coverage(chk, repo, gen):
         raise AnalysisError(
             "generator arms not reached by any instantiation (new structure "
             "kind or arm?): " + ", ".join(missing))
+
+
+def block_body(text, indent):
+    """statements of `text` (emitted at `indent`) as an ast dump, or the
+    syntax error"""
+    fresh: dict[str, str] = {}
+    text = re.sub(r"(?i)hex[0-9]{4,}",
+                  lambda m: fresh.setdefault(m.group().lower(),
+                                             f"fresh{len(fresh)}"),
+                  text)  # the interpreter's secrets/uuid stand-ins count up
+    try:
+        with warnings.catch_warnings():
+            warnings.simplefilter("ignore")
+            tree = ast.parse(in_block(text, indent))
+    except SyntaxError as exc:
+        return None, f"{exc.msg} (line {exc.lineno})"
+    body = tree.body
+    for _ in range(indent):
+        if len(body) != 1 or not isinstance(body[0], ast.If):
+            return None, "the text leaves the block it was emitted into"
+        body = body[0].body
+    return [ast.dump(b) for b in body], None
+
+
+def indent_uniformity(chk, gen, ex, TF):
+    """The fixpoint composes texts generated at indent 0; that is only an
+    argument about nested programs if a skeleton emitted at indent k is the
+    same statement list, k blocks deep."""
+    n = 0
+    for sh in ex.shapes:
+        try:
+            base = gen.transpile_ast([sh.build(gen, {})], 0)
+        except GeneratorRaised:
+            continue  # reported by generator-accepts
+        want, err0 = block_body(base, 0)
+        if want is None:
+            continue  # reported by skeleton-compiles
+        for k in (1, 2, 3):
+            cons = f"{sh.label}@indent{k}"
+            try:
+                text = gen.transpile_ast([sh.build(gen, {})], k)
+            except GeneratorRaised as exc:
+                chk.ob("C02.generator-accepts", cons, False,
+                       f"the generator raised {exc} at indent {k}", TF,
+                       witness=shape_witness(sh, k))
+                break
+            got, err = block_body(text, k)
+            n += 1
+            ok = got == want
+            chk.ob("C02.indent-uniform", cons, ok,
+                   f"{sh.label} emitted inside {k} enclosing block(s) "
+                   + (f"does not compile: {err}" if got is None else
+                      "is a different statement list than at top level"),
+                   TF, witness=shape_witness(sh, k),
+                   sample={"shape": sh.label, "indent": k} if k == 2 and
+                   sh.label.startswith("If/3") else None)
+            if not ok:
+                break
+    chk.unit("skeleton x indent comparisons", n)
+
+
+def shape_witness(sh, k):
+    """a program that puts the shape k blocks deep (for-loop bodies)"""
+    if sh.holes:
+        pre, post = sh.spell[sh.holes[0]]
+        inner = pre + "1" + post
+    else:
+        inner = sh.label
+    return "3(" * k + inner + ")" * k
 
 
 def composition_crosscheck(chk, repo, gen, ex, TF):
